@@ -360,21 +360,18 @@ void AspifTextOutput::rule(Head_t ht, const AtomSpan& head, const LitSpan& body)
 	push(Directive_t::Rule).push(static_cast<uint32_t>(ht)).push(head).push(Body_t::Normal).push(body);
 }
 void AspifTextOutput::rule(Head_t ht, const AtomSpan& head, Weight_t bound, const WeightLitSpan& lits) {
-	if (size(lits) == 0) {
-		AspifTextOutput::rule(ht, head, toSpan<Lit_t>());
-	}
 	push(Directive_t::Rule).push(static_cast<uint32_t>(ht)).push(head);
 	uint32_t top = static_cast<uint32_t>(data_->directives.size());
-	Weight_t min = weight(*begin(lits)), max = min;
+	Weight_t min = size(lits) ? weight(*begin(lits)) : 0, max = min;
 	push(Body_t::Sum).push(bound).push(static_cast<uint32_t>(size(lits)));
 	for (const WeightLit_t* it = begin(lits), *end = Potassco::end(lits); it != end; ++it) {
 		push(Potassco::lit(*it)).push(Potassco::weight(*it));
 		if (Potassco::weight(*it) < min) { min = Potassco::weight(*it); }
 		if (Potassco::weight(*it) > max) { max = Potassco::weight(*it); }
 	}
-	if (min == max) {
+	if (min == max && min > 0) {
 		data_->directives.resize(top);
-		bound = (bound + min-1)/min;
+		bound = static_cast<Weight_t>((static_cast<int64_t>(bound) + min-1)/min);
 		push(Body_t::Count).push(bound).push(static_cast<uint32_t>(size(lits)));
 		for (const WeightLit_t* it = begin(lits), *end = Potassco::end(lits); it != end; ++it) {
 			push(Potassco::lit(*it));
